@@ -658,8 +658,10 @@ class ObjTranslator:
     def __init__(self, fn, *, src_file, lean_name, kind, siblings, externals=(), ignored_calls=(), params=None,
                  has_self=True, stop_before=None, result_locals=None, doc="", method_externals=(), consts=None,
                  state=None, state_siblings=None, enter_ok=True, operators=None, constructors=None, owner_cls=None,
-                 module_tables=None, module_calls=None):
+                 module_tables=None, module_calls=None, dict_base=False):
         self.fn, self.src_file, self.lean_name, self.kind = fn, src_file, lean_name, kind
+        # a subclass of `dict`: the instance keeps its items under the pseudo attribute "<dict>"; `super().m(…)` is `dict.m`
+        self.dict_base = dict_base
         self.siblings: dict[str, Sibling] = siblings
         self.externals, self.ignored_calls = set(externals), set(ignored_calls)
         self.method_externals = set(method_externals)
@@ -682,11 +684,62 @@ class ObjTranslator:
         self.result_locals = result_locals      # names returned as an `obj "locals"` when the cut is reached
         self.doc = doc
         self.declared: set[str] = set()
-        self.handler_vars: set[str] = set()
+        self.handler_vars: dict[str, str] = {}      # `except … as e`: Python name -> the Lean variable holding the `Exc`
         self.tmp = 0
 
     def fail(self, node, why=""):
         raise Untranslatable(f"{self.src_file}:{getattr(node, 'lineno', '?')} {type(node).__name__} {why}")
+
+    # ---- a `dict` subclass: `super().m(…)` ---------------------------------------------------------------------
+    def super_call(self, e):
+        """`super().m(args)` in a class built on dict: (m, args), else None"""
+        if self.dict_base and isinstance(e, ast.Call) and isinstance(e.func, ast.Attribute) \
+                and isinstance(e.func.value, ast.Call) and isinstance(e.func.value.func, ast.Name) \
+                and e.func.value.func.id == "super" and not e.func.value.args and not e.func.value.keywords and not e.keywords:
+            return e.func.attr, e.args
+        return None
+
+    @property
+    def items_l(self) -> str:
+        return f"(← getattr {self.recv_l} \"<dict>\")"
+
+    def super_stmt(self, c, ind: str, target: str | None, returns: bool) -> list[str] | None:
+        """a statement made of one `dict` method on self: the new items go back into the threaded self"""
+        sc = self.super_call(c)
+        if sc is None:
+            return None
+        m, a = sc
+        if m in ("__contains__", "__getitem__"):
+            return None         # they read only: expressions
+        if self.kind != "mut" or self.state != self.recv:
+            self.fail(c, "dict method of self in a function that does not thread self")
+        plain = not any(isinstance(x, ast.Starred) for x in a)
+        put = lambda code: self.set_self_attr("<dict>", f"(← {code})", ind)
+        if m == "__delitem__" and len(a) == 1 and plain:
+            lines, result = [put(f"dictDel {self.items_l} {self.atom(a[0])}")], "OVal.none"
+        elif m == "__setitem__" and len(a) == 2 and plain:
+            lines, result = [put(f"dictSet {self.items_l} {self.atom(a[0])} {self.atom(a[1])}")], "OVal.none"
+        elif m == "clear" and not a:
+            lines, result = [put(f"dictClear {self.items_l}")], "OVal.none"
+        elif m == "pop" and len(a) in (1, 2) and isinstance(a[0], ast.expr) and not isinstance(a[0], ast.Starred):
+            # `super().pop(k)`, `super().pop(k, d)`, `super().pop(k, *args)` with `args` the tuple of optional defaults
+            if len(a) == 1:
+                dflt = "(OVal.seq .tuple [])"
+            elif isinstance(a[1], ast.Starred):
+                dflt = self.atom(a[1].value)
+            else:
+                dflt = f"(OVal.seq .tuple [{self.atom(a[1])}])"
+            r = f"pop_{c.lineno}"
+            lines = [f"{ind}let {r} ← dictPop {self.items_l} {self.atom(a[0])} {dflt}",
+                     f"{ind}{self.state_l} ← setattr {self.state_l} \"<dict>\" {r}.1"]
+            result = f"{r}.2"
+        else:
+            self.fail(c, f"dict method {m}")
+        if target is not None:
+            lines.append(self.assign(target, (result, True), ind))
+        if returns:
+            lines.append(self.ret(result, ind))
+        return lines
 
     # ---- class expressions (isinstance second argument, except clauses) ----------------------------------------
     def cls_name(self, e) -> str:
@@ -755,7 +808,7 @@ class ObjTranslator:
                 return "OVal.unprovided", True
             if e.id in self.declared or e.id in self.handler_vars:
                 if e.id in self.handler_vars:
-                    return f"(Exc.toVal {lname(e.id)})", True      # the caught exception as an object
+                    return f"(Exc.toVal {self.handler_vars[e.id]})", True      # the caught exception as an object
                 return lname(e.id), True
             if e.id in OBJ_CLASS_NAMES:
                 # a builtin class handed on as a value (`type=dict` in an error): known by its name
@@ -840,6 +893,13 @@ class ObjTranslator:
         f = e.func
         if self.exc_class_call(e):
             return self.exc_obj(e), True
+        sc = self.super_call(e)
+        if sc is not None:
+            if sc[0] == "__contains__" and len(sc[1]) == 1:
+                return f"(OVal.bool {self.cond(e)})", True
+            if sc[0] == "__getitem__" and len(sc[1]) == 1:
+                return f"dictItem {self.items_l} {self.atom(sc[1][0])}", False
+            self.fail(e, f"dict method {sc[0]} inside an expression")
         # constructing an instance: `RuntimeContext(k=v, …)` / `self.__class__(k=v, …)` -> the translated `__init__`
         cname = None
         if isinstance(f, ast.Name) and f.id in self.constructors:
@@ -860,6 +920,12 @@ class ObjTranslator:
                 self.fail(e, "call of a sibling with effects inside an expression")
             args = sb.positional(self, e)
             return f"{sb.lean_name} W {self.recv_l} {' '.join(self.atom(x) for x in args)}".rstrip(), False
+        if ast.unparse(f) in self.module_calls and all(k.arg for k in e.keywords) \
+                and not any(isinstance(x, ast.Starred) for x in e.args):
+            # a function / class of another module, the world's by name; keyword arguments travel as (name, value) pairs
+            kws = [f"(OVal.seq .tuple [(OVal.str {json.dumps(k.arg)}), {self.atom(k.value)}])" for k in e.keywords]
+            items = [self.atom(x) for x in e.args] + kws
+            return f"W.ext {json.dumps(self.module_calls[ast.unparse(f)])} [{', '.join(items)}]", False
         if isinstance(f, ast.Attribute) and e.keywords and all(k.arg for k in e.keywords) \
                 and not any(isinstance(x, ast.Starred) for x in e.args) and not self.is_self(f.value) \
                 and not self.is_state(f.value) and f.attr not in ("append", "extend", "clear", "sort", "pop", "update"):
@@ -875,12 +941,20 @@ class ObjTranslator:
             n = f.id
             if n in ("unprovided", "callable", "isinstance", "issubclass", "bool", "hasattr"):
                 return f"(OVal.bool {self.cond(e)})", True
+            if n == "len" and len(a) == 1 and self.dict_base and self.is_self(a[0]) and "__len__" not in self.siblings:
+                return f"len {self.items_l}", False
+            if n == "next" and len(a) == 1 and self.dict_base and isinstance(a[0], ast.Call) and not a[0].keywords \
+                    and isinstance(a[0].func, ast.Name) and a[0].func.id == "reversed" and len(a[0].args) == 1 \
+                    and self.is_self(a[0].args[0]) and "__reversed__" not in self.siblings and "__iter__" not in self.siblings:
+                return f"dictLastKey {self.items_l}", False
             if n == "len" and len(a) == 1:
                 return f"len {self.atom(a[0])}", False
             if n == "list" and len(a) == 1:
                 return f"toList {self.atom(a[0])}", False
             if n == "dict" and len(a) == 1:
                 return f"dictCopy {self.atom(a[0])}", False
+            if n == "type" and len(a) == 1 and "type" not in self.declared:
+                return f"W.ext \"type\" [{self.atom(a[0])}]", False
             if n == "timedelta" and len(a) == 1:
                 return f"timedeltaDays {self.atom(a[0])}", False
             if n == "getattr" and len(a) == 2:
@@ -946,11 +1020,23 @@ class ObjTranslator:
                 return f"(← eq {self.atom(l)} {self.atom(r)})"
             if isinstance(op, ast.NotEq):
                 return f"(!(← eq {self.atom(l)} {self.atom(r)}))"
+            if isinstance(op, (ast.In, ast.NotIn)) and self.dict_base and self.is_self(r):
+                # `k in self` on a dict subclass: its own `__contains__` if it defines one, else dict's
+                neg = "!" if isinstance(op, ast.NotIn) else ""
+                sb = self.siblings.get("__contains__")
+                if sb is not None:
+                    if sb.kind != "pure":
+                        self.fail(e, "__contains__ with effects")
+                    return f"({neg}(← truthy (← {sb.lean_name} W {self.recv_l} {self.atom(l)})))"
+                return f"({neg}(← contains {self.items_l} {self.atom(l)}))"
             if isinstance(op, ast.In):
                 return f"(← contains {self.atom(r)} {self.atom(l)})"
             if isinstance(op, ast.NotIn):
                 return f"(!(← contains {self.atom(r)} {self.atom(l)}))"
             self.fail(e, "comparison operator")
+        sc = self.super_call(e)
+        if sc is not None and sc[0] == "__contains__" and len(sc[1]) == 1:
+            return f"(← contains {self.items_l} {self.atom(sc[1][0])})"
         if isinstance(e, ast.Call) and isinstance(e.func, ast.Name) and not e.keywords:
             n, a = e.func.id, e.args
             if n == "unprovided" and len(a) == 1:
@@ -1044,6 +1130,102 @@ class ObjTranslator:
             return f"(← getattr {self.recv_l} {json.dumps(attr)})", (lambda code, ind: self.set_self_attr(attr, f"(← {code})", ind))
         self.fail(v, "in-place update of something that is neither a local nor an attribute of self")
 
+    def effect_call(self, st):
+        """a simple statement that calls a method of the threaded object: ("sib", Sibling, call, target) for a translated
+        one (`context.handle_error(e)`), ("method", name, call, target) for a foreign one (`context.transformer(v, t)`)"""
+        if isinstance(st, ast.Expr):
+            c, target = st.value, None
+        elif isinstance(st, ast.Assign) and len(st.targets) == 1 and isinstance(st.targets[0], ast.Name):
+            c, target = st.value, st.targets[0].id
+        else:
+            return None
+        if not (isinstance(c, ast.Call) and isinstance(c.func, ast.Attribute) and self.is_state(c.func.value)):
+            return None
+        if ast.unparse(c.func) in self.ignored_calls:
+            return None
+        m = c.func.attr
+        if m in self.state_siblings:
+            return ("sib", self.state_siblings[m], c, target)
+        if c.keywords or any(isinstance(x, ast.Starred) for x in c.args):
+            return None
+        return ("method", m, c, target)
+
+    def try_effects(self, s, ind: str) -> list[str]:
+        """`try:` whose body acts on the threaded object.  A raise inside a translated method does not go through Lean's
+        `try` (the object it hands back would be lost): every statement of the body is run while no exception is pending,
+        what is raised is kept as a value, and the handler / `else` part is chosen afterwards."""
+        if s.finalbody or len(s.handlers) != 1:
+            self.fail(s, "try form")
+        h = s.handlers[0]
+        if h.type is None:
+            self.fail(s, "bare except")
+        classes = [self.cls_name(x) for x in h.type.elts] if isinstance(h.type, ast.Tuple) else [self.cls_name(h.type)]
+        for st in s.body:
+            if not isinstance(st, (ast.Expr, ast.Assign, ast.Return, ast.Pass)):
+                self.fail(st, "compound statement in a try that acts on the threaded object")
+        L = s.lineno
+        pend = f"pending_{L}"
+        out = self.predeclare([s.body, h.body, s.orelse], ind)
+        out.append(f"{ind}let mut {pend} : Option (OVal V) := none")
+        for st in s.body:
+            eff = self.effect_call(st)
+            out.append(f"{ind}if {pend}.isNone then")
+            i2 = ind + "  "
+            if eff is None:
+                out.append(f"{i2}try")
+                out += self.stmt(st, i2 + "  ")
+                out.append(f"{i2}catch x_{st.lineno} =>")
+                out.append(f"{i2}  {pend} := some (Exc.toVal x_{st.lineno})")
+            elif eff[0] == "sib":
+                _, sb, c, target = eff
+                if sb.kind != "mut":
+                    self.fail(st, "state method that is not translated with effects")
+                args = " ".join(self.atom(x) for x in sb.positional(self, c))
+                r = f"r_{st.lineno}"
+                out.append(f"{i2}let {r} ← {sb.lean_name} W {self.state_l} {args}".rstrip())
+                out.append(f"{i2}{self.state_l} := {r}.1")
+                out.append(f"{i2}match {r}.2 with")
+                out.append(f"{i2}| Outcome.raise x => {pend} := some x")
+                if target:
+                    self.declared.add(target)
+                    out.append(f"{i2}| Outcome.ret x => {lname(target)} := x")
+                else:
+                    out.append(f"{i2}| Outcome.ret _ => pure ()")
+            else:
+                _, m, c, target = eff
+                r = f"r_{st.lineno}"
+                out.append(f"{i2}let {r} ← W.method {json.dumps(m)} {self.state_l} {self.args_list(c.args)}")
+                out.append(f"{i2}{self.state_l} := {r}.1")
+                out.append(f"{i2}match {r}.2 with")
+                out.append(f"{i2}| Outcome.raise x => {pend} := some x")
+                if target:
+                    out.append(f"{i2}| Outcome.ret x => {lname(target)} := x")
+                else:
+                    out.append(f"{i2}| Outcome.ret _ => pure ()")
+        ev = f"caught_{L}"
+        out.append(f"{ind}if let some {ev} := {pend} then")
+        i2 = ind + "  "
+        catch_all = "Exception" in classes
+        if not catch_all:
+            out.append(f"{i2}if (← isinstance {ev} [{', '.join(json.dumps(c) for c in classes)}]) then")
+            i3 = i2 + "  "
+        else:
+            i3 = i2
+        was_declared = h.name in self.declared if h.name else False
+        if h.name:
+            out.append(f"{i3}{lname(h.name)} := {ev}" if was_declared else f"{i3}let mut {lname(h.name)} := {ev}")
+            self.declared.add(h.name)
+        out += self.stmts(h.body, i3) or [f"{i3}pure ()"]
+        if h.name and not was_declared:
+            self.declared.discard(h.name)
+        if not catch_all:
+            out.append(f"{i2}else")
+            out.append(f"{i2}  throw (Exc.raised {ev})")
+        if s.orelse:
+            out.append(f"{ind}else")
+            out += self.stmts(s.orelse, ind + "  ")
+        return out
+
     def mut_sibling_call(self, e):
         """`self.sib(…, context, …)` where `sib` is translated with effects on the same threaded parameter"""
         if isinstance(e, ast.Call) and isinstance(e.func, ast.Attribute) and self.is_self(e.func.value) \
@@ -1052,6 +1234,27 @@ class ObjTranslator:
             if sb.kind == "mut" and sb.state and sb.state == self.state and self.kind == "mut" and self.state != self.recv:
                 return sb
         return None
+
+    def self_mut_call(self, e):
+        """`self.sib(…)` where `sib` is translated with effects on self, in a function that threads self"""
+        if isinstance(e, ast.Call) and isinstance(e.func, ast.Attribute) and self.is_self(e.func.value) \
+                and e.func.attr in self.siblings and self.kind == "mut" and self.state == self.recv:
+            sb = self.siblings[e.func.attr]
+            if sb.kind == "mut" and not sb.is_property and (sb.state is None or sb.state == sb.recv):
+                return sb
+        return None
+
+    def hoist_self(self, e, ind: str):
+        sb = self.self_mut_call(e)
+        args = sb.positional(self, e)
+        r, v = f"r_{e.lineno}", f"ret_{e.lineno}"
+        lines = [f"{ind}let {r} ← {sb.lean_name} W {self.recv_l} {' '.join(self.atom(x) for x in args)}".rstrip(),
+                 f"{ind}{self.state_l} := {r}.1",
+                 f"{ind}if let Outcome.raise exc_{e.lineno} := {r}.2 then",
+                 f"{ind}  return ({self.state_l}, Outcome.raise exc_{e.lineno})",
+                 f"{ind}let {lname(v)} := (match {r}.2 with | Outcome.ret x => x | Outcome.raise x => x)"]
+        self.declared.add(v)
+        return lines, ast.copy_location(ast.Name(id=v, ctx=ast.Load()), e)
 
     def hoist(self, e, ind: str):
         """evaluate a call of a sibling with effects before the statement that uses its result:
@@ -1074,6 +1277,53 @@ class ObjTranslator:
     def stmt(self, s, ind: str) -> list[str]:
         if isinstance(s, ast.Expr) and isinstance(s.value, ast.Constant) and isinstance(s.value.value, str):
             return []
+        if self.dict_base:
+            if isinstance(s, ast.Expr):
+                got = self.super_stmt(s.value, ind, None, False)
+            elif isinstance(s, ast.Return) and s.value is not None:
+                got = self.super_stmt(s.value, ind, None, True)
+            elif isinstance(s, ast.Assign) and len(s.targets) == 1 and isinstance(s.targets[0], ast.Name):
+                got = self.super_stmt(s.value, ind, s.targets[0].id, False)
+            else:
+                got = None
+            if got is not None:
+                return got
+        if self.kind == "mut" and self.state == self.recv and isinstance(s, (ast.Return, ast.Expr)) and s.value is not None:
+            # `self.sib(…)` for a sibling translated with effects on self: as a statement, as the returned value, or
+            # inside the returned tuple — it runs first, hands self back, and a raise of it ends this function
+            v = s.value
+            elts = v.elts if isinstance(v, ast.Tuple) else [v]
+            if any(self.self_mut_call(x) for x in elts):
+                lines, new = [], []
+                for x in elts:
+                    if self.self_mut_call(x):
+                        more, repl = self.hoist_self(x, ind)
+                        lines += more
+                        new.append(repl)
+                    else:
+                        tmp = f"held_{x.lineno}_{x.col_offset}"
+                        lines.append(self.assign(tmp, self.val(x), ind))
+                        new.append(ast.copy_location(ast.Name(id=tmp, ctx=ast.Load()), x))
+                if isinstance(s, ast.Expr):
+                    return lines
+                nv = ast.copy_location(ast.Tuple(elts=new, ctx=ast.Load()), v) if isinstance(v, ast.Tuple) else new[0]
+                return lines + [self.ret(self.atom(nv), ind)]
+        if isinstance(s, ast.Expr) and isinstance(s.value, ast.Call) and not s.value.keywords \
+                and isinstance(s.value.func, ast.Attribute) and s.value.func.attr == "pop" and len(s.value.args) == 1 \
+                and isinstance(s.value.func.value, ast.Attribute) and self.is_self(s.value.func.value.value):
+            # `self.attr.pop(k)` with the result dropped: `del self.attr[k]`
+            read, write = self.container_target(s.value.func.value)
+            return [write(f"dictDel {read} {self.atom(s.value.args[0])}", ind)]
+        if isinstance(s, ast.Expr) and isinstance(s.value, ast.Call) and not s.value.keywords \
+                and isinstance(s.value.func, ast.Name) and s.value.func.id in self.declared and len(s.value.args) == 1 \
+                and self.is_state(s.value.args[0]) and self.state == self.recv:
+            # `f(self)` for a callable held in a parameter: foreign code given the threaded object — the world's, and
+            # what it does to the object travels back
+            r = f"r_{s.lineno}"
+            return [f"{ind}let {r} ← W.method \"()\" {self.state_l} [{lname(s.value.func.id)}]",
+                    f"{ind}{self.state_l} := {r}.1",
+                    f"{ind}if let Outcome.raise exc_{s.lineno} := {r}.2 then",
+                    f"{ind}  return ({self.state_l}, Outcome.raise exc_{s.lineno})"]
         if isinstance(s, ast.For):
             # `for … in enumerate(cls._read_items(value, context))`: the call with effects runs first
             it = s.iter
@@ -1100,9 +1350,9 @@ class ObjTranslator:
             # `raise e.__class__(msg) from e` inside `except … as e`: the same class again (messages are not modelled)
             if isinstance(exc, ast.Call) and isinstance(exc.func, ast.Attribute) and exc.func.attr == "__class__" \
                     and isinstance(exc.func.value, ast.Name) and exc.func.value.id in self.handler_vars:
-                return [f"{ind}throw {lname(exc.func.value.id)}"]
+                return [f"{ind}throw {self.handler_vars[exc.func.value.id]}"]
             if isinstance(exc, ast.Name) and exc.id in self.handler_vars:
-                return [f"{ind}throw {lname(exc.id)}"]
+                return [f"{ind}throw {self.handler_vars[exc.id]}"]
             if isinstance(exc, ast.Name) and exc.id in self.declared:
                 code = lname(exc.id)       # `raise e` for an exception object held in a parameter / local
             else:
@@ -1179,6 +1429,8 @@ class ObjTranslator:
             return out
         if isinstance(s, ast.Continue):
             return [f"{ind}continue"]
+        if isinstance(s, ast.Break):
+            return [f"{ind}break"]
         if isinstance(s, ast.Pass):
             return [f"{ind}pure ()"]
         if isinstance(s, ast.With) and len(s.items) == 1 and isinstance(s.items[0].context_expr, ast.Call) \
@@ -1192,7 +1444,9 @@ class ObjTranslator:
             call = s.items[0].context_expr
             args = self.state_siblings["enter"].positional(self, call)
             v = s.items[0].optional_vars.id
-            out = [self.assign(v, (f"W.ext \"enter\" {self.args_list([call.func.value] + args)}", False), ind)]
+            # always a new (shadowing) variable: the name of an earlier `with` may be out of scope here
+            self.declared.add(v)
+            out = [f"{ind}let mut {lname(v)} ← W.ext \"enter\" {self.args_list([call.func.value] + args)}"]
             return out + self.stmts(s.body, ind)
         if isinstance(s, ast.With):
             # `with self._lock:` — the lock is not modelled (sequential semantics): the body runs as it is
@@ -1203,6 +1457,9 @@ class ObjTranslator:
                 if not (isinstance(ce, ast.Attribute) and self.is_self(ce.value) and "lock" in ce.attr):
                     self.fail(s, "with on something that is not a lock of self")
             return [f"{ind}-- with {ast.unparse(s.items[0].context_expr)}: (lock not modelled)"] + self.stmts(s.body, ind)
+        if isinstance(s, ast.Try) and self.kind == "mut" and self.state != self.recv \
+                and any(self.effect_call(st) is not None for st in s.body):
+            return self.try_effects(s, ind)
         if isinstance(s, ast.Try):
             if s.finalbody or len(s.handlers) != 1:
                 self.fail(s, "try form")
@@ -1212,6 +1469,8 @@ class ObjTranslator:
             classes = self.cls_list(h.type)
             pre = self.predeclare([s.body, h.body, s.orelse], ind)
             ev = lname(h.name) if h.name else f"exc_{s.lineno}"
+            if h.name and h.name in self.declared:
+                ev = f"caught_{s.lineno}"      # the name is also an ordinary (mutable) local of this function
             okv = f"noexc_{s.lineno}"
             if s.orelse:
                 pre.append(f"{ind}let mut {okv} := true")
@@ -1221,11 +1480,15 @@ class ObjTranslator:
             out.append(f"{ind}  if Exc.isA {ev} {classes} then")
             if s.orelse:
                 out.append(f"{ind}    {okv} := false")
+            shadowed = h.name in self.declared if h.name else False
             if h.name:
-                self.handler_vars.add(h.name)
+                self.handler_vars[h.name] = ev
+                self.declared.discard(h.name)
             out += self.stmts(h.body, ind + "    ") or [f"{ind}    pure ()"]
             if h.name:
-                self.handler_vars.discard(h.name)
+                self.handler_vars.pop(h.name, None)
+                if shadowed:
+                    self.declared.add(h.name)
             out.append(f"{ind}  else")
             out.append(f"{ind}    throw {ev}")
             if s.orelse:
@@ -1296,8 +1559,10 @@ class ObjTranslator:
 
     def translate(self) -> str:
         a = self.fn.args
-        if a.kwarg or a.posonlyargs:
+        if a.posonlyargs:
             self.fail(self.fn, "signature")
+        if a.kwarg and any(isinstance(n, ast.Name) and n.id == a.kwarg.arg for st in self.fn.body for n in ast.walk(st)):
+            self.fail(self.fn, "**kwargs that is used")
         names = [x.arg for x in a.args if not (self.has_self and x.arg == self.recv)]
         if a.vararg:
             names.append(a.vararg.arg)       # `*classes`: the tuple of the positional arguments
@@ -1443,7 +1708,8 @@ def gen_group(repo: Path, notes: list, *, src_file: str, cls_name: str | None, f
                                state=spec.get("state"), state_siblings=spec.get("state_siblings"),
                                enter_ok=spec.get("enter_ok", True), operators=spec.get("operators"),
                                constructors=spec.get("constructors"), owner_cls=spec.get("cls", cls_name),
-                               module_tables=spec.get("module_tables"), module_calls=spec.get("module_calls"))
+                               module_tables=spec.get("module_tables"), module_calls=spec.get("module_calls"),
+                               dict_base=spec.get("dict_base", False))
             out.append(tr.translate() + "\n")
         except Untranslatable as e:
             notes.append(f"untranslatable {e} ({cls_name or ns}.{py})")
@@ -1776,6 +2042,11 @@ def gen_parse(repo: Path, notes: list, gate_ok: bool) -> str:
                             dict(py="_parse_contains", lean="parse_contains", arity=3, **common)],
                      gate_ok=gate_ok)
     body += _group_body(part)
+    part = gen_group(repo, notes, src_file="utype/parser/rule.py", cls_name="LogicalType", ns="Parse", title="",
+                     funcs=[dict(py="logical_parse", arity=3, module_calls={"utype.Options": "Options"}, **common)],
+                     externals={"RuntimeContext"},
+                     gate_ok=gate_ok)
+    body += _group_body(part)
     return "\n".join(out + body + ["end Utv.Gen.Parse", ""])
 
 
@@ -1856,6 +2127,21 @@ def gen_field(repo: Path, notes: list, gate_ok: bool) -> str:
         funcs=[{"py": f} for f in FIELD_FUNCS], externals={"copy_value"}, gate_ok=gate_ok)
 
 
+def gen_schema(repo: Path, notes: list, gate_ok: bool) -> str:
+    """Gen/Schema.lean: the deleting mutators of `Schema` (a dict subclass: items under "<dict>", attributes under
+    "__dict__"); the parser's `get_field`, a field's `is_required` and a property's deleter are the world's"""
+    c = dict(dict_base=True)
+    return gen_group(
+        repo, notes, src_file="utype/schema.py", cls_name="Schema", ns="Schema",
+        title="utype/schema.py (class Schema: __contains__, __field_deleter__, __delitem__, pop, popitem, clear)",
+        funcs=[dict(py="__contains__", lean="contains_", kind="pure", **c),
+               dict(py="__field_deleter__", lean="field_deleter", kind="mut", **c),
+               dict(py="__delitem__", lean="delitem", kind="mut", **c),
+               dict(py="pop", kind="mut", **c),
+               dict(py="popitem", kind="mut", **c),
+               dict(py="clear", kind="mut", **c)], gate_ok=gate_ok)
+
+
 def main():
     ap = argparse.ArgumentParser()
     ap.add_argument("--repo", default="/repo")
@@ -1878,6 +2164,7 @@ def main():
     files["Parse.lean"] = gen_parse(repo, notes, unprov_ok)
     files["Generator.lean"] = gen_generator(repo, notes, unprov_ok)
     files["FunctionalObj.lean"] = gen_functional_obj(repo, notes, unprov_ok)
+    files["Schema.lean"] = gen_schema(repo, notes, unprov_ok)
     files["JsonTables.lean"] = gen_json_tables(repo, notes)
     files["CodecTables.lean"] = gen_codec_tables(repo, notes)
     files["NOTES.txt"] = "\n".join(notes) + ("\n" if notes else "")
